@@ -9,8 +9,10 @@ import (
 	"fmt"
 	"math"
 	"sort"
+	"sync/atomic"
 
 	"github.com/janelia-flyem/dvid/datatype/common/labels"
+	"github.com/janelia-flyem/dvid/datatype/roi"
 	"github.com/janelia-flyem/dvid/dvid"
 
 	"verif/vlib"
@@ -23,6 +25,7 @@ func runC18(c *vlib.Ctx) {
 	c18Packed(c)
 	c18RLE(c)
 	c18ROI(c)
+	c18BoundsInside(c)
 	c.Set("rule", "key codec: per-coordinate sweep (quick: |v|<2^22 plus 2^12-neighbourhoods of every power of two and of the int32 limits; thorough: all 2^32) with round trip and strict byte monotonicity, plus all ordered pairs of an 11^3 boundary cube for (z,y,x) significance; packed index: every value in (-2^20,2^20) per field x 25 boundary combinations; RLE: every ordered set of <=3 non-overlapping runs in a 12x3-row universe through Normalize/Partition/Split/FitToBounds/(un)marshal; ROI: span sets through the HTTP API. Non-trivial = distinct run set with >=2 runs, or distinct coordinate with a negative or boundary component")
 }
 
@@ -614,3 +617,104 @@ func floorDiv(a, b int32) int32 {
 }
 
 var _ = sort.Ints
+
+// c18BoundsInside: roi.VoxelBoundsInside (does a voxel box touch the ROI?) over a complete small universe: every sorted
+// set of <= 3 spans in 3 z-layers x 3 rows x 6 x-spans (block size 4, shifted to negative coordinates as well) x every
+// box whose corners fall on any voxel position of a 3-point menu per block. Reference: some block of some span lies in
+// the box's block range.
+func c18BoundsInside(c *vlib.Ctx) {
+	bs := dvid.Point3d{4, 4, 4}
+	var universe []dvid.Span
+	for z := int32(0); z < 3; z++ {
+		for y := int32(0); y < 3; y++ {
+			for x0 := int32(0); x0 < 3; x0++ {
+				for x1 := x0; x1 < 3; x1++ {
+					universe = append(universe, dvid.Span{z, y, x0, x1})
+				}
+			}
+		}
+	}
+	// boxes: block range [lo, hi] per axis over {0,1,2}, voxel corners at the first / last voxel of those blocks, plus one
+	// unaligned variant (min at the last voxel of block lo, max at the first voxel of block hi)
+	type box struct{ lo, hi [3]int32 }
+	var boxes []box
+	for lz := int32(0); lz < 3; lz++ {
+		for hz := lz; hz < 3; hz++ {
+			for ly := int32(0); ly < 3; ly++ {
+				for hy := ly; hy < 3; hy++ {
+					for lx := int32(0); lx < 3; lx++ {
+						for hx := lx; hx < 3; hx++ {
+							boxes = append(boxes, box{[3]int32{lx, ly, lz}, [3]int32{hx, hy, hz}})
+						}
+					}
+				}
+			}
+		}
+	}
+	maxSpans := 2
+	if c.Thorough() {
+		maxSpans = 3
+	}
+	var sets [][]int
+	var gen func(start int, cur []int)
+	gen = func(start int, cur []int) {
+		if len(cur) > 0 {
+			sets = append(sets, append([]int{}, cur...))
+		}
+		if len(cur) == maxSpans {
+			return
+		}
+		for i := start; i < len(universe); i++ {
+			gen(i+1, append(cur, i))
+		}
+	}
+	gen(0, nil)
+	var evals int64
+	vlib.Par(len(sets), 16, func(si int) {
+		var n int64
+		for _, shift := range []int32{0, -2} { // -2: the universe straddles zero in every axis
+			spans := make([]dvid.Span, len(sets[si]))
+			for k, ui := range sets[si] {
+				u := universe[ui]
+				spans[k] = dvid.Span{u[0] + shift, u[1] + shift, u[2] + shift, u[3] + shift}
+			}
+			for _, b := range boxes {
+				for _, unaligned := range []bool{false, true} {
+					var e dvid.Extents3d
+					for d := 0; d < 3; d++ {
+						lo, hi := (b.lo[d]+shift)*4, (b.hi[d]+shift)*4+3
+						if unaligned {
+							lo, hi = lo+3, hi-3
+							if hi < lo {
+								hi = lo
+							}
+						}
+						e.MinPoint[d], e.MaxPoint[d] = lo, hi
+					}
+					want := false
+					for _, sp := range spans {
+						if sp[0] < b.lo[2]+shift || sp[0] > b.hi[2]+shift || sp[1] < b.lo[1]+shift || sp[1] > b.hi[1]+shift {
+							continue
+						}
+						if sp[3] >= b.lo[0]+shift && sp[2] <= b.hi[0]+shift {
+							want = true
+						}
+					}
+					n++
+					got, err := roi.VoxelBoundsInside(e, bs, spans)
+					if err != nil || got != want {
+						layers := "one-z-layer"
+						if b.lo[2] != b.hi[2] {
+							layers = "several-z-layers"
+						}
+						c.Violate("roi:voxelboundsinside:"+layers, fmt.Sprintf("VoxelBoundsInside(box %v..%v, block size 4, spans %v) = %v (err %v), membership says %v", e.MinPoint, e.MaxPoint, spans, got, err, want), map[string]interface{}{"spans": spans, "min": e.MinPoint, "max": e.MaxPoint})
+					}
+				}
+			}
+		}
+		atomic.AddInt64(&evals, n)
+	})
+	c.Eval(evals)
+	c.Set("voxelboundsinside_span_sets", len(sets))
+	c.Set("voxelboundsinside_evaluations", evals)
+}
